@@ -147,8 +147,8 @@ func (c *Ctx) numActions() (printerAct, parserAct func(p *packages.Package, call
 		found := false
 		ast.Inspect(body, func(n ast.Node) bool {
 			if call, ok := n.(*ast.CallExpr); ok {
-				if se, ok := unparen(call.Fun).(*ast.SelectorExpr); ok && se.Sel.Name == "SetID" {
-					if id, ok := unparen(se.X).(*ast.Ident); ok && params[info.ObjectOf(id)] {
+				if objE, _, ok := c.idSetCall(info, call); ok {
+					if id, ok := unparen(objE).(*ast.Ident); ok && params[info.ObjectOf(id)] {
 						found = true
 					}
 				}
@@ -675,11 +675,11 @@ func ruleNUMAUTH(c *Ctx) []Obligation {
 			})
 			ast.Inspect(fd.Body, func(n ast.Node) bool {
 				call, ok := n.(*ast.CallExpr)
-				if !ok || len(call.Args) != 1 {
+				if !ok {
 					return true
 				}
-				se, ok := unparen(call.Fun).(*ast.SelectorExpr)
-				if !ok || se.Sel.Name != "SetID" {
+				objE, idE, ok := c.idSetCall(info, call)
+				if !ok {
 					return true
 				}
 				// counter-derived?
@@ -716,13 +716,13 @@ func ruleNUMAUTH(c *Ctx) []Obligation {
 						return true
 					})
 				}
-				walk(call.Args[0])
+				walk(idE)
 				if !derived {
 					return true
 				}
 				// ID space from the receiver's type
 				space := "?"
-				t := info.TypeOf(se.X)
+				t := info.TypeOf(objE)
 				switch {
 				case isNamed(t, pkgIR, "GlobalIdent"):
 					space = "global"
